@@ -149,6 +149,8 @@ def gen_case(rng, tier):
             "minimize": rng.choice(OBJECTIVES), "temperature": rng.choice([0.01, 0.01, 0.3, 2.0]),
             "seed": rng.randrange(1 << 30), "repeats": rng.choice([1, 2, 4, 8, 16]),
             "chain_seed": rng.randrange(1 << 30), "via_info": rng.random() < 0.15,
+            # index labels of the tree: single characters, or what a tree built without canonicalisation carries
+            "alphabet": rng.choice(["ascii", "ascii", "ascii", "mixed", "shifted", "words", "tuples", "ints"]),
             "k": rng.choice([0, 0, 0, 1, 2, 3, 10])}
 
 
@@ -182,6 +184,7 @@ class RecDict(dict):
 
 
 def build_tree(case):
+    gen.set_alphabet(case.get("alphabet", "ascii"), case.get("seed", 0))
     net = gen.Net.from_json(case["net"])
     tree = gen.real_tree(ctg, net, case["tree"])
     for ix, proj in case["pre"]:
@@ -217,7 +220,7 @@ def observe(case):
     us = gen.unsym(net)
     obs = {"m0": int(tree.multiplicity), "flops0": int(tree.total_flops()),
            "bt": gen.bt_of_real(tree)}
-    if case.get("via_info") and not case["pre"]:
+    if case.get("via_info") and not case["pre"] and case.get("alphabet", "ascii") in ("ascii", "mixed", "shifted"):
         # the finder is handed an `opt_einsum.PathInfo` of the same contraction path instead of the tree
         # (slicer.py:113-117 `ContractionCosts.from_info`); everything is still judged against the tree
         import opt_einsum as oe
@@ -267,13 +270,28 @@ def observe(case):
         try:
             ix_sl, cost = sf.search(repeats, **kw)
             o["status"] = "ok"
+            unknown = [i for i in ix_sl if i not in us]
+            if unknown:
+                # the search handed back something that is not an index of the network at all
+                o["unknown"] = [repr(i) for i in unknown]
+                o["ix_sl"] = []
+                o["cost"] = costs_brief(cost)
+                o["_ix_sl"] = ix_sl
+                o["picks"], o["cache"] = None, {}
+                return o
             o["ix_sl"] = sorted(us[i] for i in ix_sl)
             o["cost"] = costs_brief(cost)
             o["_ix_sl"] = ix_sl
         except tuple(ERR) as e:
             o["status"] = ERR[type(e)]
-        o["picks"] = picks_of(rec.log)
-        o["cache"] = {tuple(sorted(us[i] for i in kk)): costs_brief(v) for kk, v in rec.items()}
+        try:
+            o["picks"] = picks_of(rec.log)
+            o["cache"] = {tuple(sorted(us[i] for i in kk)): costs_brief(v) for kk, v in rec.items()}
+        except (KeyError, AssertionError, TypeError):
+            # the finder's cache holds keys that are not sets of indices of the network
+            o["unknown"] = o.get("unknown") or ["<cache key>"]
+            o["picks"], o["cache"] = None, {}
+            return o
         if k and o["status"] == "ok":
             # the list interface `best(k=...)` with the same per-call targets
             bkw = {a: b for a, b in kw.items() if a != "temperature"}
@@ -316,6 +334,8 @@ def targets_hold(case, m0, flops0, nslices, total_flops, max_size, tg=None):
 
 def oracle_one(case, obs, net, tree, call, tg, tag=""):
     """Property oracle for one returning `search` call: `tg` are the targets in force for it."""
+    if call.get("unknown"):
+        return (tag + "not-indices-of-the-network", call["unknown"])
     ix_sl = call["_ix_sl"]
     out = set(net.output)
     sl = set(call["ix_sl"])
@@ -371,6 +391,8 @@ def oracle(case, obs, net, tree):
         got = sorted(json.dumps(c, sort_keys=True) for c in obs["cons"])
         if real != got:
             return ("from_info:baseline-differs-from-tree", {"finder": obs["cons"][:4], "tree": real[:4]})
+    if obs.get("unknown") and obs["status"] != "ok":
+        return ("finder-cache-keys-not-indices-of-the-network", obs["unknown"])
     if obs["status"] != "ok":
         return None        # the property only speaks about searches that return
     r = oracle_one(case, obs, net, tree, obs, case["targets"])
@@ -625,6 +647,8 @@ def chain_corr(ctx, drv, case, net, tree):
 def search_corr(ctx, drv, case, obs, net):
     """(c): the whole history of `search` calls on one finder, replayed by the model (`Slicer.callCache /
     callResult`, the definitions `session_sound` is about) on the observed oracle answers."""
+    if obs.get("picks") is None or any(c.get("picks") is None for c in obs.get("calls", [])):
+        return True      # (already reported by the oracle)
     real_calls = [dict(obs, over={})] + list(obs.get("calls", []))
     mcalls = []
     for rc in real_calls:
@@ -726,10 +750,11 @@ def check_case(ctx, drv, case):
     ctx.count("objective:" + case["minimize"].split("-")[0])
     ctx.count("status:" + obs["status"])
     ctx.count("pre:%d" % len(case["pre"]))
+    ctx.count("labels:" + case.get("alphabet", "ascii"))
     if obs.get("via_info"):
         ctx.count("finder-from-PathInfo")
-    ctx.count("trials", len(obs["picks"]))
-    ctx.count("picks", sum(len(p) for p in obs["picks"]))
+    ctx.count("trials", len(obs["picks"] or []))
+    ctx.count("picks", sum(len(p) for p in (obs["picks"] or [])))
     ctx.count("cache_entries", len(obs["cache"]))
     for k, cl in enumerate(obs.get("calls", [])):
         ctx.count("reused_finder_call:" + cl["status"])
